@@ -93,6 +93,11 @@ type solverSpec struct {
 
 var solvers = []solverSpec{
 	{"z3-new", func(t int) []string { return []string{"z3-new", "-in", "-smt2", fmt.Sprintf("-T:%d", t)} }},
+	// same solver without AC-flattening of terms: flattening (bvadd a (bvadd b c)) into an n-ary sum
+	// stops quantifier patterns of the form (select arr (bvadd off k)) from matching ground terms
+	{"z3-new/noflat", func(t int) []string {
+		return []string{"z3-new", "-in", "-smt2", fmt.Sprintf("-T:%d", t), "rewriter.flat=false"}
+	}},
 	{"z3", func(t int) []string { return []string{"z3", "-in", "-smt2", fmt.Sprintf("-T:%d", t)} }},
 	{"cvc5", func(t int) []string {
 		return []string{"cvc5", "--lang", "smt2", fmt.Sprintf("--tlimit=%d", t*1000)}
@@ -140,10 +145,11 @@ func race(script string, timeoutS int, all bool) (win solverAnswer, answers []so
 		go func() { ch <- runSolver(ctx, solvers[i], script, timeoutS) }()
 	}
 	start(0)
+	start(1)
 	var head <-chan time.Time = time.After(2500 * time.Millisecond)
 	if all {
-		start(1)
 		start(2)
+		start(3)
 		head = nil
 	}
 	got := 0
@@ -157,13 +163,13 @@ func race(script string, timeoutS int, all bool) (win solverAnswer, answers []so
 			}
 			if head != nil && got == started {
 				head = nil
-				start(1)
 				start(2)
+				start(3)
 			}
 		case <-head:
 			head = nil
-			start(1)
 			start(2)
+			start(3)
 		}
 	}
 	for _, a := range answers {
